@@ -124,6 +124,6 @@ func TestVerifC06TraceWriter(t *testing.T) {
 			}
 			return nil
 		},
-		MinLabelFrac: map[string]float64{">= 2 segments": 0.5},
+		MinLabelFrac: map[string]float64{">= 2 segments": 0.3},
 	})
 }
